@@ -45,6 +45,7 @@ struct St {
     routers: Vec<RouterProxy>,
     next_c: u32,
     next_id: u64,
+    victims: u32,
 }
 
 fn keep(st: &mut St, m: Msg, r: &mut Rng) {
@@ -136,6 +137,35 @@ fn one_op(st: &mut St, r: &mut Rng, log: &mut Vec<String>, big_tx: &IpcSender<Ms
                 *st.queued.entry(c).or_insert(0) += 1;
             }
             log.push(format!("send c{} #{} -> {}", c, id, if res.is_ok() { "ok" } else { "err" }));
+        }
+    } else if op < 46 && !cfg!(feature = "inproc") && st.victims < 3 {
+        // a sending sim-process that dies in the middle of a multi-packet message carrying a
+        // sender and a region; we receive until the channel reports the end
+        if let Ok((vtx, vrx)) = ipc::channel::<Msg>() {
+            st.victims += 1;
+            let pid = 20 + st.victims;
+            let k = r.below(10);
+            let id = st.next_id;
+            st.next_id += 1;
+            sim::suspend_fd_faults(true);
+            super::util::spawn_process(&format!("victim{}", pid), pid, vtx, move |vtx: IpcSender<Msg>| {
+                let _ = vtx.send(Msg::Plain(id));
+                if let Ok((t2, r2)) = ipc::channel::<Msg>() {
+                    let _ = vtx.send(Msg::Tx(id, 99, t2));
+                    drop(r2);
+                }
+                sim::arm_crash(pid, k);
+                let _ = vtx.send(Msg::Region(id, IpcSharedMemory::from_byte(5, 400_000)));
+                sim::disarm_crash(pid);
+                sim::crash_now();
+            });
+            sim::suspend_fd_faults(false);
+            let mut n = 0;
+            while let Ok(m) = vrx.recv() {
+                n += 1;
+                drop(m);
+            }
+            log.push(format!("victim process crashed at call {} of a big send; {} messages received", k, n));
         }
     } else if op < 48 {
         // a multi-packet message with attachments to the channel that a background thread drains
@@ -387,7 +417,7 @@ impl Scenario for C11S {
         let mut total_ops = 0u64;
         let mut all_log: Vec<String> = vec![];
         'rounds: for round in 0..rounds {
-            let mut st = St { senders: vec![], receivers: vec![], queued: BTreeMap::new(), set: None, members: BTreeMap::new(), servers: vec![], regions: vec![], routers: vec![], next_c: 0, next_id: 1 };
+            let mut st = St { senders: vec![], receivers: vec![], queued: BTreeMap::new(), set: None, members: BTreeMap::new(), servers: vec![], regions: vec![], routers: vec![], next_c: 0, next_id: 1, victims: 0 };
             let mut log: Vec<String> = vec![];
             let (big_tx, big_rx) = match ipc::channel::<Msg>() {
                 Ok(x) => x,
